@@ -4,7 +4,9 @@ package accumulation
 // callee; m/r imports m/q and re-exports the callee through a forwarding function Mid; m/p imports both and holds
 // Entry, which calls r.Mid and uses q.G. Each package is analysed in turn by the real pipeline; a package sees the
 // facts of ALL packages below it (as drivers hand them out: direct and transitive dependencies), through a fresh
-// type-check of their sources. Obligations as in Harness_P01X, plus C03: the same program as ONE package (the
+// type-check of their sources. With DIRECT=0 the top package does not import the base at all (it uses accessor functions of
+// the middle package), so the base's facts - inferred map and nolint ranges - reach it only transitively; with NOLINT the base
+// package's dereference carries a nolint comment. Obligations as in Harness_P01X, plus C03: the same program as ONE package (the
 // dependencies' declarations first) gets equally many diagnostics.
 
 //verif:use zz_verif_pipe.go
@@ -18,10 +20,21 @@ func Harness_P01Y() {
 	n := ndParam("STMTS", 2)
 	compound := ndParam("COMPOUND", 5)
 	g := &p01Gen{x: true, y: true, g: true, live: true, calleeKind: -1, simple: ndParam("SIMPLE", 9)}
+	// DIRECT=1: the top package also imports the base package; DIRECT=0: it reaches the base only through the middle
+	// package (accessor functions for the package-level pointer), so the base's facts arrive only transitively
+	direct := ndChoice("top_imports_base", ndParam("DIRECT", 2)) == 1
 	g.emit("package p")
-	g.emit("import (\"m/q\"; \"m/r\")")
+	if direct {
+		g.emit("import (\"m/q\"; \"m/r\")")
+	} else {
+		g.emit("import \"m/r\"")
+	}
 	g.emit("var flag0, flag1, flag2, flag3 bool")
-	g.emit("var _ = q.Calleeflag")
+	if direct {
+		g.emit("var _ = q.Calleeflag")
+	} else {
+		g.emit("var _ = 0")
+	}
 	g.emit("var _ = r.Mid")
 	g.emit("func Entry() {")
 	g.emit("\tvar x, y *int")
@@ -32,13 +45,21 @@ func Harness_P01Y() {
 	g.emit("}")
 	base := g.b.String()
 	src := strings.NewReplacer("callee(", "r.Mid(", "x = g\n", "x = q.G\n", "g = x\n", "q.G = x\n", "*g\n", "*q.G\n").Replace(base)
+	if !direct {
+		src = strings.NewReplacer("callee(", "r.Mid(", "x = g\n", "x = r.GetG()\n", "g = x\n", "r.SetG(x)\n", "*g\n", "*r.GetG()\n").Replace(base)
+	}
 	// m/q always has a callee here (Mid forwards to it); when Entry never calls, the identity shape is used
 	kind := g.calleeKind
 	if kind < 0 {
 		kind = 0
 	}
 	depQ, calleeDeref := p01xDep(kind, false)
-	depR := "package r\n\nimport \"m/q\"\n\nfunc Mid(a *int) *int { return q.Callee(a) }\n"
+	// a nolint comment on the base package's dereference: the suppression must follow the flow into the top package
+	nolint := calleeDeref > 0 && ndChoice("nolint_in_base", ndParam("NOLINT", 2)) == 1
+	if nolint {
+		depQ = strings.Replace(depQ, "\t_ = *a\n", "\t_ = *a //nolint:nilaway\n", 1)
+	}
+	depR := "package r\n\nimport \"m/q\"\n\nfunc Mid(a *int) *int { return q.Callee(a) }\n\nfunc GetG() *int { return q.G }\n\nfunc SetG(v *int) { q.G = v }\n"
 	ndObserveStr("source_q", depQ)
 	ndObserveStr("source_p", src)
 
@@ -68,9 +89,14 @@ func Harness_P01Y() {
 	ndObserveInt("diagnostics", total)
 	ndAssert("P01.A4.no_internal_failure", !internal)
 	reported := total > 0
-	ndAssert("P01.A1.a_reachable_nil_dereference_is_reported", ndImplies(g.panics, reported))
+	if !nolint {
+		ndAssert("P01.A1.a_reachable_nil_dereference_is_reported", ndImplies(g.panics, reported))
+	}
 	nUnchecked := len(g.unchecked)
-	if calleeDeref > 0 && g.calleeKind >= 0 {
+	if nolint {
+		nUnchecked = -1 // the suppressed dereference takes the line-specific obligations out
+	}
+	if calleeDeref > 0 && g.calleeKind >= 0 && !nolint {
 		nUnchecked++
 	}
 	if nUnchecked == 0 && g.calleeKind != 3 {
@@ -87,9 +113,18 @@ func Harness_P01Y() {
 	// C03: one package with the same declarations in dependency order
 	entry := base[strings.Index(base, "func Entry()"):]
 	entry = strings.ReplaceAll(entry, "callee(", "mid(")
+	if !direct {
+		entry = strings.NewReplacer("x = g\n", "x = getG()\n", "g = x\n", "setG(x)\n", "*g\n", "*getG()\n").Replace(entry)
+	}
 	calleeText := strings.NewReplacer("package q\n", "", "Calleeflag", "calleeflag", "var G ", "var g ", "func Callee(", "func callee(", "return G\n", "return g\n").Replace(depQ)
-	whole := "package p\n\nvar flag0, flag1, flag2, flag3 bool\n" + calleeText + "\nfunc mid(a *int) *int { return callee(a) }\n\n" + entry
+	whole := "package p\n\nvar flag0, flag1, flag2, flag3 bool\n" + calleeText + "\nfunc mid(a *int) *int { return callee(a) }\n\nfunc getG() *int { return g }\n\nfunc setG(v *int) { g = v }\n\n" + entry
 	rw := pipeAnalyse(whole)
 	ndObserveInt("diagnostics_whole_program", len(rw.diags))
-	ndAssert("C03.X.three_package_chain_reports_as_many_diagnostics_as_the_whole_program", len(rw.diags) == total)
+	ndAssert("C03.X.three_package_chain_is_reported_iff_the_whole_program_is", (len(rw.diags) > 0) == (total > 0))
+	if direct {
+		// (when the package-level pointer is reached through accessor functions the whole-program run lists a second
+		// explanation for the same dereference - nil stored by SetG besides the missing initialiser - which the modular run,
+		// having fixed the variable's verdict in the base package, does not repeat; counts are compared for DIRECT=1 only)
+		ndAssert("C03.X.three_package_chain_reports_as_many_diagnostics_as_the_whole_program", len(rw.diags) == total)
+	}
 }
